@@ -184,12 +184,39 @@ let rec downstream ?(sfx = "") mt (c : case) (root : manifest) (ip : (n * ver li
 
 let cap = 200000
 
+(* `LAWS V:.. Q:..`: the model's comparison and matching on a pool, same layout as the harness *)
+let laws line =
+  let vs = ref [] and qs = ref [] in
+  List.iter (fun sec ->
+    if String.length sec > 2 then begin
+      let tag = String.sub sec 0 2 and body = String.sub sec 2 (String.length sec - 2) in
+      if tag = "V:" then vs := List.map parse_ver (split ',' body)
+      else if tag = "Q:" then qs := List.map parse_req (split ',' body)
+    end) (List.tl (String.split_on_char ' ' line));
+  let vs = !vs and qs = !qs in
+  let row f = String.concat "" (List.map f vs) in
+  let cmp = List.map (fun a -> row (fun b -> match ver_compare a b with Lt -> "<" | Eq -> "=" | Gt -> ">")) vs in
+  let eq = List.map (fun a -> row (fun b -> if ver_eqb a b then "1" else "0")) vs in
+  let sd = dedup_vers (sort_vers vs) in
+  let show_bucket = function
+    | BMajor m -> string_of_int (int_of_n m)
+    | BMinor m -> "0." ^ string_of_int (int_of_n m)
+    | BPre v -> show_ver v in
+  let bk = List.map (fun v -> show_bucket (bucket_of_ver v)) vs in
+  let m mt = List.map (fun q -> row (fun v -> if mt q v then "1" else "0")) qs in
+  let bc = List.map (fun q -> row (fun v -> if bucket_contains (bucket_of_req q) v then "1" else "0")) qs in
+  Printf.sprintf "laws cmp=%s eq=%s bt=%d sd=%s bk=%s mcur=%s mfix=%s bc=%s"
+    (String.concat "/" cmp) (String.concat "/" eq) (List.length sd)
+    (String.concat "," (List.map show_ver sd)) (String.concat "," bk)
+    (String.concat "/" (m matches_cur)) (String.concat "/" (m matches_fix)) (String.concat "/" bc)
+
 let () =
   try
     while true do
       let line = input_line stdin in
       let out =
         try
+          if String.length line >= 5 && String.sub line 0 5 = "LAWS " then laws line else
           let c = parse_case line in
           let buf = Buffer.create 512 in
           let size = int_of_n (enum_size c.idx (cand_keys c.idx c.root)) in
